@@ -63,6 +63,9 @@ TStep ==
      \/ /\ e.ev = "move" /\ pc[e.p] \in {"Write", "Close", "Move"} /\ MoveFrom(e.p, pc[e.p], e.src_complete)
         /\ Finish(IF ~(e.to_modpath /\ e.from_moddir) THEN "move-endpoints"
                   ELSE IF ~e.src_complete THEN "inv:ModuleIntegrity(incomplete file moved to the module path)" ELSE "", e)
+     \* a rename of something that is not a complete module onto the module path: judged, not merely "not enabled"
+     \/ /\ e.ev = "move" /\ e.to_modpath /\ ~e.src_complete /\ pc[e.p] \in {"Mkstemp", "Write", "Close", "Move"} /\ tmp[e.p].bytes # 2
+        /\ Stutter /\ Finish("inv:ModuleIntegrity(incomplete file moved to the module path)", e)
      \/ /\ e.ev = "writer" /\ CallWriter(e.p) /\ Finish(C(e.bytes_ok /\ e.path_ok, "module_writer-arguments"), e)
      \/ /\ e.ev = "load" /\ LoadFrom(e.p, Probing \cup {"Load"}) /\ Finish(C(e.from = mod.from /\ e.magic = mod.magic, "load-content"), e)
      \/ /\ e.ev = "done" /\ Done(e.p) /\ Finish(C(e.rendered = loc[e.p].loaded.from, "done-rendered"), e)
